@@ -147,6 +147,10 @@ def cases(rng, tier):
             alpha += [w, rng.choice([v for v in variants(w) if v and ":" not in v] or WIDE), rng.choice(WIDE)]
         na = rng.range(0, 4)
         anames = rng.shuffle(["A0", "x", "", "日", "a::b"])[:na]
+        if rng.chance(1, 4):
+            # appender names are opaque strings compared exactly: names that differ only by surrounding white space,
+            # case or a look-alike letter are different appenders
+            anames = rng.shuffle(["sink", "sink ", " sink", "\u00a0sink", "sink\t", "Sink", "s\u0131nk", "sink\u3000"])[:na]
         nl = rng.range(1, 12)
         names = []
         tries = 0
@@ -235,4 +239,9 @@ def compare(c, impl, model):
 def extra_checks(ctx, cases, impl_lines, model_lines):
     from gen import xcheck
     return (xcheck.concurrent_reconfig(ctx, "routing under concurrent reconfiguration", levels=True, plain=False)
-            + xcheck.global_facade(ctx, "routing through the installed global logger and the log! macros"))
+            + xcheck.global_facade(ctx, "routing through the installed global logger and the log! macros")
+            # "the configured logger" of a process started with init_file is the one the file on disk declares, also
+            # when the file was replaced by a version with an OLDER modification time (rollback, cp -p, rename of a
+            # staged file) or through a re-pointed symbolic link: C15's reloader histories with that action
+            + xcheck.borrow(ctx, "C15", "records are routed by the configuration the file on disk declares",
+                            lambda c: c[0] in (3, 6) and 13 in c[5], n=40))
